@@ -616,7 +616,7 @@ def simple_font(basefont="Foo", widths=None, first=32, encoding="WinAnsiEncoding
 
 
 def page_doc(content, fonts=None, mediabox=(0, 0, 612, 792), extra=None, rotate=None, contents_list=None,
-             resources=None, page_extra=None, filt=False, before=None):
+             resources=None, page_extra=None, filt=False, before=None, direct_fonts=()):
     """Minimal one-page document.  fonts: {resource name: font dict}.
     before: content streams of pages that come before the page (same resources and box)."""
     fonts = fonts if fonts is not None else {"F1": simple_font()}
@@ -624,6 +624,10 @@ def page_doc(content, fonts=None, mediabox=(0, 0, 612, 792), extra=None, rotate=
     fd = {}
     n = 10
     for k, f in fonts.items():
+        if k in direct_fonts:
+            # the font dictionary written directly into the /Font resource dictionary
+            fd[k.encode("latin-1")] = f
+            continue
         objs[n] = f
         fd[k.encode("latin-1")] = R(n)
         n += 1
